@@ -220,6 +220,35 @@ def _scroll_clamp(ctx: Ctx):
     return r
 
 
+def rule_hline_dedup(ctx: Ctx) -> RuleResult:
+    """BarGraph.hlines_display collects one (row, character) entry per horizontal line; the consumer inserts one
+    extra row set per entry, keyed by the row.  Two h-lines that fall on the same screen row must therefore be
+    collapsed by comparing the *row* that is stored - comparing anything finer (the unrounded position) lets two
+    entries for one row through and the graph grows taller than the size it was asked for."""
+    p = ctx.p
+    rr = RuleResult("PAIR", "C01.12", "BarGraph.hlines_display drops a horizontal line when its row equals the row stored for the previous one", floor=1)
+    fi = p.func("urwid.widget.bar_graph.BarGraph.hlines_display")
+    found = 0
+    for loop in [n for n in fi.own_nodes() if isinstance(n, ast.For)]:
+        apps = [c for c in ast.walk(loop) if isinstance(c, ast.Call) and isinstance(c.func, ast.Attribute) and c.func.attr == "append" and c.args and isinstance(c.args[0], ast.Tuple) and c.args[0].elts and isinstance(c.args[0].elts[0], ast.Name)]
+        skips = [n for n in loop.body if isinstance(n, ast.If) and len(n.body) == 1 and isinstance(n.body[0], ast.Continue) and isinstance(n.test, ast.Compare) and len(n.test.ops) == 1 and isinstance(n.test.ops[0], ast.Eq) and isinstance(n.test.left, ast.Name) and isinstance(n.test.comparators[0], ast.Name)]
+        if not apps or not skips:
+            continue
+        found += 1
+        key = apps[0].args[0].elts[0].id
+        sk = skips[0]
+        a, b = sk.test.left.id, sk.test.comparators[0].id
+        last = b if a == key else a if b == key else None
+        upd = [n for n in loop.body if isinstance(n, ast.Assign) and len(n.targets) == 1 and isinstance(n.targets[0], ast.Name) and n.targets[0].id in (a, b)]
+        rr.inst("dedup guard", True, {"stored_key": key, "guard": norm(sk.test, 40), "remembered": [norm(u, 40) for u in upd]})
+        ok = last is not None and any(u.targets[0].id == last and isinstance(u.value, ast.Name) and u.value.id == key for u in upd)
+        if not ok:
+            rr.add(finding("PAIR", fi, sk, f"the guard `{norm(sk.test, 40)}` does not compare the row `{key}` that is stored in the list with the row remembered from the previous line: two different h-line values that land on the same screen row are both kept and the rendered graph has more rows than requested", construct="h-line de-duplication not keyed on the stored row"))
+    if not found:
+        raise AnalysisError("BarGraph.hlines_display: the loop that collects the h-line rows was not found")
+    return rr
+
+
 def run(ctx: Ctx):
     p = ctx.p
     mods = modules(p)
@@ -234,6 +263,7 @@ def run(ctx: Ctx):
         fwd.run_fwd(p, "C01.9", ("urwid.widget",), floor=100, description="render(), rows() and pack() pass the focus flag on to the children they measure / draw, so the three agree on the size of the focused rendering"),
         _scroll_clamp(ctx),
         accum.run_accum(p, "C01.11", "C01", floor=2),
+        rule_hline_dedup(ctx),
     ]
 
 
@@ -242,6 +272,7 @@ _COLS = "urwid/widget/columns.py"
 _CANV = "urwid/canvas.py"
 _TEXT = "urwid/widget/text.py"
 MUTANTS = [
+    Mut("hlines-dedup-on-float", "urwid/widget/bar_graph.py", "BarGraph.hlines_display", "            if i == last_i:\n                continue", "            if rh == last_i:\n                continue", "PAIR|widget.bar_graph.BarGraph.hlines_display"),
     Mut("pile-item-rows-from-width", _PILE, "Pile.get_item_rows", "w.pack((), focused)[1]", "w.pack((), focused)[0]", "DIM|widget.pile.Pile.get_item_rows"),
     Mut("pile-pad-sign-flipped", _PILE, "Pile.render", "out.pad_trim_top_bottom(0, size[1] - out.rows())", "out.pad_trim_top_bottom(0, out.rows() - size[1])", "PAIR|widget.pile.Pile.render"),
     Mut("columns-pad-by-rows", _COLS, "Columns.render", "canvas.pad_trim_left_right(0, size[0] - canvas.cols())", "canvas.pad_trim_left_right(0, size[0] - canvas.rows())", ("PAIR|widget.columns.Columns.render", "DIM|widget.columns.Columns.render")),
